@@ -235,6 +235,20 @@ def _is_initialiser(P, own, f, inits):
     return fails_after_producer and writes_on_success
 
 
+def _decides_failure(P, v, i):
+    """the call i is the one whose failure (negative / non-zero result tested on this path) makes the path a failure path:
+    a callee that failed has not registered anything (that is its own obligation)"""
+    for (a, p) in v.atoms:
+        t = a[2] if a[0] == "cmp" else (a[1] if a[0] == "truth" else None)
+        if t is not None and t[0] in ("call", "icall") and t[3] == i.id:
+            if a[0] == "cmp" and a[3] == ("const", 0) and ((a[1] == "slt" and p) or (a[1] == "sge" and not p) or
+                                                            (a[1] == "ne" and p) or (a[1] == "eq" and not p)):
+                return True
+            if a[0] == "truth" and p:
+                return True
+    return False
+
+
 def clause2_ret(ctx, P, cg, own):
     """initialiser functions: result must be tested by every caller"""
     inits = []
@@ -251,26 +265,48 @@ def clause2_ret(ctx, P, cg, own):
         raise AnalysisBroken("initialiser discovery lost its anchors: %s" % names)
     # a failing initialiser leaves nothing registered: no list linking of its argument and no store to a global on a failure
     # path unless undone on that path (the caller releases the half-built object)
+    from ..core.retconst import ret_consts
+    rsum = ret_consts(P, cg)
+    init_names = [x.srcname for x in inits]
+
+    def reaches(i, names):
+        """does the call instruction i reach (transitively) an own function with one of these source names?"""
+        for t in cg.targets(i.fn, i):
+            if P.srcname_of(t) in names:
+                return True
+            g = P.functions.get(t)
+            if g is not None and P.own(g) and any(P.srcname_of(x) in names for x in cg.reach(t)):
+                return True
+        return False
     for f in inits:
         bad = None
         nfail = 0
         for v in own.views(f):
             rc = v.ret_const()
             may_fail_tail = False
+            tail_pos = [0]
             if rc is None:
                 # the result of a fallible callee is returned directly: this path is a failure path whenever the callee fails
                 rt = P.term(f, v.ret_operand()) if v.ret_operand() is not None else None
-                if rt is not None and rt[0] == "call" and rt[1] in [x.srcname for x in inits]:
-                    may_fail_tail = True
-                    tail_pos = [k for k, i in v.insts() if i.id == rt[3]]
+                if rt is not None and rt[0] in ("call", "icall"):
+                    ci = f.insts.get(rt[3])
+                    fallible = rt[0] == "call" and rt[1] in init_names
+                    if ci is not None and not fallible:
+                        fallible = any(x < 0 for t in cg.targets(f, ci) for x in rsum.get(t, ()))
+                    if fallible:
+                        may_fail_tail = True
+                        tail_pos = [k for k, i in v.insts() if i.id == rt[3]] or [0]
             if not may_fail_tail and (rc is None or rc >= 0):
                 continue
             nfail += 1
-            linked = [i for k, i in v.calls(("list_add_tail", "list_add")) if not may_fail_tail or k < tail_pos[0]]
-            unlinked = [i for _, i in v.calls("list_del")]
+            limit = tail_pos[0] if may_fail_tail else 10 ** 9
+            linked = [i for k, i in v.calls() if k < limit and reaches(i, ("list_add_tail", "list_add")) and
+                      not (rc is not None and rc < 0 and _decides_failure(P, v, i))]
+            unlinked = [i for k, i in v.calls() if reaches(i, ("list_del",))]
             gst = [i for _, i in v.insts() if i.op == "store" and P.term(f, i.a[1])[0] == "global"]
             if (linked and len(unlinked) < len(linked)) or gst:
-                bad = (v, "links its argument into a list" if linked else "writes global state (%s)" % fmt_term(P.term(f, gst[0].a[1])))
+                bad = (v, "links its argument into a list (through %s)" % P.srcname_of(linked[0].callee or "?") if linked
+                       else "writes global state (%s)" % fmt_term(P.term(f, gst[0].a[1])))
         ctx.ob("C15.2 R-COMMIT", f, "failure-leaves-nothing-registered", bad is None,
                "%s %s on a path that then fails: the caller frees the object, which stays reachable (global peer list / counter) - a "
                "dangling peer that other peers' sweeps and the shutdown sequence will touch" % (f.srcname, bad[1] if bad else ""),
